@@ -37,6 +37,38 @@ add("C32", "model_checking",
     "SAT-based bounded model checking of compiled Rust (Kani proof harnesses, unwinding assertions on), counterexamples replayed natively with kani playback",
     "DESIGN.md §4 C32")
 
+G_NOTE = "trusted: independent lark PAR reader, CFG->SAT encoder (self-validated on every run against a leftmost-derivation enumerator for all strings <= 4; every witness re-checked by CYK / table-driven parser and where possible by the natively built generated parser), z3; bounded in sentence length N; the programs quantifier is covered by the stated grammar corpus (repository grammars + /verif/grammars)"
+TV = "translation_validation"
+
+add("C01", TV,
+    "Translation validation of what the real generator produced, decided by z3 for ALL token strings up to N per corpus grammar: the PRODUCTIONS table in the generated parser source encodes the transformed grammar (shape + injective terminal map), has the same bounded language as the grammar as written (independent reader, textbook EBNF semantics), and G-tab shows that table-driven prediction with the generated LOOKAHEAD_AUTOMATA picks the right production at every node of every parse tree of every sentence <= N (so exactly the sentences are accepted by a predictive parser on these tables). The runtime half (eval exact on all buffers) is C08's Kani harness.",
+    G_NOTE + "; runtime loop LLKParser::parse_into itself is not symbolically executed in this check (see C08/C19 for the kernels); recovery on/off does not change tables",
+    "bounded CFG language equivalence + LL(k) table validity encoded in SMT (z3), regenerated from parol's real output on every run; witnesses replayed on the generated parser", "DESIGN.md §4 C01")
+add("C07", TV,
+    "G-tab on the minimised automata the real generator writes (generated parser source, and the export model): completeness (unsat required: every production applied in any sentence <= N is the one the automaton predicts within its declared k), exactness (every accepting path justified by a sentence <= N; semi-decided, unjustified paths are reported not alarmed) and the structural contract (sorted, deterministic, dense, accepting states are leaves, depth <= k <= MAX_K, predicted productions belong to the non-terminal).",
+    G_NOTE, "LL(k) table validity encoded in SMT (z3) over all sentences <= N per grammar and lookahead limit", "DESIGN.md §4 C07")
+add("C08", "model_checking",
+    "Bounded model checking (Kani/CBMC) of the real LookaheadDFA::eval against a reference walk for a SYMBOLIC transition table (<= 6 transitions, <= 5 states, k <= 3, satisfying the generator contract that C07 checks on real tables) and all lookahead buffers of arbitrary u16 token types: Ok(p) iff the buffer begins with a path to a state accepting p, else a prediction error; no token is skipped.",
+    K_NOTE + "; TokenStream::lookahead_token_type is stubbed by a cursor over a symbolic array (the real stream pads to k tokens with EOI); counterexamples are replayed natively on a real TokenStream",
+    "SAT-based bounded model checking of compiled Rust (Kani), symbolic automaton + symbolic tokens, native replay through a real scnr2 TokenStream", "DESIGN.md §4 C08")
+add("C09", TV,
+    "z3 decides per corpus grammar, for ALL token strings up to N, that the grammar as written and the output of the real canonicalisation (parol -u) generate the same strings - for the start symbol and for every user non-terminal - plus the alternative-count conjunct that exposes helper-name clashes.",
+    G_NOTE, "bounded CFG language equivalence in SMT (z3) between the source text and parol's real -u output", "DESIGN.md §4 C09")
+add("C10", TV,
+    "z3 decides per LL corpus grammar, for ALL token strings up to N, that the grammar before (parol -u) and after (parol -e) the real left factoring generate the same strings, for the start symbol and every pre-existing non-terminal; the factored grammar must have no two non-empty alternatives with the same first symbol; the public left-factor sub-command is validated on the committed BNF grammars; termination is observed.",
+    G_NOTE, "bounded CFG language equivalence in SMT (z3) between parol's real -u and -e outputs", "DESIGN.md §4 C10")
+add("C12", TV,
+    "z3 decides per LALR(1) corpus grammar, for ALL token strings up to N, that the grammar before and after the real LR augmentation generate the same strings; the augmented start symbol must have exactly one production and occur on no right-hand side.",
+    G_NOTE, "bounded CFG language equivalence in SMT (z3) between parol's real -u and -e outputs for LALR grammars", "DESIGN.md §4 C12")
+add("C15", TV,
+    "For each delimiter pair of a stated family the real generate_build_information/format_block_comment is called natively and z3's regular-expression theory decides over ALL strings (unbounded) whether the emitted pattern's language equals start.(text up to and including the first end delimiter) - a prefix-free language, so the longest-match token is exactly that; line comments likewise. Every witness is replayed on the real scnr2 scanner; recorded defect classes are printed as KNOWN-FINDING, anything else is a violation.",
+    "trusted: regex->z3 translator (validated on every run against the repository's scan_test! vectors and by replay), z3 sequence theory, scnr2's leftmost-longest rule; delimiter family and spelling (raw) are stated in the evidence; bare CR line ends outside the claim",
+    "regular-language equivalence queries in z3's sequence/regex theory over regexes emitted by the real generator; native replay with scnr2", "DESIGN.md §4 C15")
+add("C31", "model_checking",
+    "Bounded model checking (Kani/CBMC) of the real Recovery::levenshtein_distance for every pair of lengths up to 3x3 (quick) / 4x4 (thorough) with all u16 element values: the returned script transforms act into exp, its non-keep count equals the reported distance, and an arbitrary script chosen by the solver is never cheaper (minimality without a reference DP).",
+    K_NOTE + "; one harness per concrete length pair (symbolic Vec lengths exhaust CBMC), contents fully symbolic; minimal_token_difference outside the claim",
+    "SAT-based bounded model checking of compiled Rust (Kani), universally quantified competitor script", "DESIGN.md §4 C31")
+
 PENDING = {}
 
 def main():
